@@ -54,13 +54,13 @@ def register(i, name):
     Directive("dd", schema_name=name)(DD())
 
     async def pet(parent, args, ctx, info):
-        return lying if i in (1, 2) else cat
+        return lying
     if i == 1:
         Resolver("Query.pet", schema_name=name, type_resolver=lambda result, ctx, info, abstract: result.get("kind", result["_typename"]))(pet)
     else:
         Resolver("Query.pet", schema_name=name)(pet)
     if i == 2:
-        TypeResolver("Pet", schema_name=name)(lambda result, ctx, info, abstract: result.get("kind", result["_typename"]))
+        TypeResolver("Pet", schema_name=name)(lambda result, ctx, info, abstract: "Dog")
 
     @Resolver("Query.u", schema_name=name)
     async def u(parent, args, ctx, info):
@@ -157,6 +157,7 @@ class FakeSchema:
 REG_KINDS = [("directives", SchemaRegistry.register_directive), ("resolvers", SchemaRegistry.register_resolver), ("type_resolvers", SchemaRegistry.register_type_resolver),
              ("scalars", SchemaRegistry.register_scalar), ("subscriptions", SchemaRegistry.register_subscription)]
 BAKED = []
+SchemaRegistry.clean()          # the engines above are built; from here on the registry only holds the stub objects
 for _owner in ("alpha", "beta", "alph", "Alpha", "alpha "):
     for _kind, _reg in REG_KINDS:
         _reg(_owner, Stub("x_" + _kind, _owner, BAKED))
